@@ -48,7 +48,8 @@ Lemma case_meaning_traversals : forall rest,
      exists g obs, rest = enc_graph g ++ Z.of_nat (length obs) :: flat_map enc_trav obs ++ 1 :: enc_graph g /\
        g_wf g /\ obs <> [] /\
        Forall (fun o =>
-         ((t_root o < 0 \/ Z.of_nat (length g) <= t_root o) -> t_status o = 2) /\
+         ((t_root o < 0 \/ Z.of_nat (length g) <= t_root o) ->
+            t_status o = 2 /\ t_pre o = [] /\ t_post o = [] /\ t_rev o = [] /\ t_rva o = [] /\ t_eul o = [] /\ t_ent o = [] /\ t_ext o = []) /\
          (0 <= t_root o < Z.of_nat (length g) ->
             t_status o = 0 /\
             exists evs V', dfs_node (g_out g) [] (Z.to_N (t_root o)) evs V' /\
@@ -62,6 +63,7 @@ Lemma case_meaning_traversals : forall rest,
        g_wf g /\
        scc_spec g compsN /\
        hascof = (if flags =? 0 then 0 else 1) /\
+       (flags = 0 -> cof = []) /\
        (flags <> 0 -> length cof = length g /\
           forall c v, In v (comp_at compsN c) -> nth (N.to_nat v) cof (-1) = Z.of_nat c) /\
        length outsN = length compsN /\
@@ -80,7 +82,7 @@ Lemma case_meaning_graphops : forall rest,
   (simplify_case_ok rest <-> exists g weighted ws rg rws wg obs,
      rest = enc_graph g ++ weighted :: enc_Zss ws ++ 0 :: enc_graph rg ++ enc_Zss rws ++ 1 :: enc_graph g /\
      g_wf g /\
-     (if weighted =? 0 then wg = unit_weights g
+     (if weighted =? 0 then wg = unit_weights g /\ ws = []
       else Forall2 (fun tw a => wadj_decodes (fst tw) (snd tw) a) (combine g ws) wg /\ length ws = length g) /\
      map (map fst) wg = g /\
      Forall2 (fun tw a => wadj_decodes (fst tw) (snd tw) a) (combine rg rws) obs /\ length rws = length rg /\
@@ -124,5 +126,5 @@ Lemma case_meaning_graphops : forall rest,
      ((status = 0 /\ (forall s a, In s stmts -> In a (stmt_attrs s) -> snd a <> AOther) /\
        exists body, render_all stmts = Some body /\
          obs = ZsN ([100; 105; 103; 114; 97; 112; 104; 32] ++ dot_string (d_name d) ++ [32; 123; 10] ++ body ++ [125; 10])%N)
-      \/ (status = 2 /\ exists s a, In s stmts /\ In a (stmt_attrs s) /\ snd a = AOther))).
+      \/ (status = 2 /\ obs = [] /\ exists s a, In s stmts /\ In a (stmt_attrs s) /\ snd a = AOther))).
 Proof. intro rest. repeat match goal with |- _ /\ _ => split | |- _ <-> _ => split end; exact (fun H => H). Qed.
